@@ -1,4 +1,7 @@
 mod c02;
+mod c04;
+mod c06;
+mod c11;
 mod model;
 mod util;
 
@@ -15,6 +18,10 @@ fn main() {
     quiet_panics();
     let out = match cmd.as_str() {
         "c02" => c02::run(&args),
+        "c04" => c04::run(&args, "C04"),
+        "c20" => c04::run(&args, "C20"),
+        "c11" => c11::run(&args),
+        "c06" => c06::run(&args),
         "kernels" => {
             println!("{:?}", kyrodb_engine::verif_hooks::simd_available());
             return;
